@@ -1045,10 +1045,17 @@ func (sd *shardDelegate) MergeRemoteState(buf []byte, join bool) {
 		return
 	}
 
-	// Save the remote state to local map
+	// Save the remote state to local map - unless we already hold a newer one. State exchanges
+	// with one peer can overlap and be processed out of order; both snapshots carry the
+	// sender's own clock, so the older one is recognisable. Installing it would take shards
+	// the peer has registered since out of our view: the reconcile loop then closes the
+	// intra-proxy streams for them (dropping whatever is in flight on them) until the next
+	// exchange brings them back.
 	if sd.manager != nil {
 		sd.manager.remoteNodeStatesMu.Lock()
-		sd.manager.remoteNodeStates[state.NodeName] = state
+		if cur, ok := sd.manager.remoteNodeStates[state.NodeName]; !ok || !state.Updated.Before(cur.Updated) {
+			sd.manager.remoteNodeStates[state.NodeName] = state
+		}
 		sd.manager.remoteNodeStatesMu.Unlock()
 	}
 
